@@ -1,2 +1,2 @@
 CONSTANT MaxDefs = 3
-CONSTANT PoolSize = 20
+CONSTANT PoolSize = 21
